@@ -44,19 +44,23 @@ struct Value {
             if (accum != "") {
                 accum += std::string(" ") + v;
                 if (vlen > 0 && v[vlen-1] == ']') {
-                    result.emplace_back(accum.c_str(), accum.length() - 1);
+                    result.emplace_back(accum.c_str(), accum.length());
                     accum = "";
-                    continue;
                 }
+                continue;
             }
             if (vlen > 0) {
                 // brackets embed
                 if (v[0] == '[' && v[vlen-1] != ']') {
-                    accum = &v[1];
+                    accum = v;
                     continue;
                 }
                 result.emplace_back(v, vlen);
             }
+        }
+        if (accum != "") {
+            fprintf(stderr, "parse error, unclosed [bracket (expected: ']') in \"%s\"\n", accum.c_str());
+            exit(1);
         }
         return result;
     }
